@@ -446,6 +446,20 @@ func checkC12(r *Result) {
 
 	// ---- VOTE-GUARDS
 	if vh := need("(x/dispute/keeper.msgServer).Vote"); vh != nil {
+		// the tally a vote triggers reads the voters' records (the team's weight comes from its Voter record): the vote's own
+		// record must be stored before TallyVote is called
+		{
+			po := AnalyzePaths(vh, []Atom{{Name: "voterStored", Event: P.CallEvent(descIs("coll:x/dispute/keeper.Keeper.Voter.Set"), T)}})
+			n := 0
+			for _, cs := range P.CallSitesIn(vh) {
+				if cs.Callee == "(x/dispute/keeper.Keeper).TallyVote" {
+					n++
+					bad := po.Require(cs.Instr, func(v map[string]bool) bool { return v["voterStored"] })
+					r.check(len(bad) == 0, "VOTE-GUARDS", "(x/dispute/keeper.msgServer).Vote # the voter's record is stored before the tally it triggers", P.Pos(cs.Pos()), fmt.Sprintf("valuations: %v", bad))
+				}
+			}
+			r.check(n == 1, "VOTE-GUARDS", "(x/dispute/keeper.msgServer).Vote # one tally call", P.Pos(vh.Pos()), fmt.Sprint(n))
+		}
 		tm := NewTermer()
 		ps := AnalyzePaths(vh, []Atom{{Name: "voting", Cond: statusIs("Voting")},
 			{Name: "voted", Cond: func(rel *Term) (bool, bool) {
